@@ -69,6 +69,32 @@ def gen_join_case(rng):
     return {'cfg': {'nquads': rng.random() < 0.3, 'mode': rng.choice(['NO', 'PARTIAL-AGGREGATIONS', 'MAXIMAL'])}, 'sources': sources, 'doc': [child, parent]}
 
 
+def gen_hierarchy_case(rng):
+    """One table joined with itself on different columns (employee.mgr = manager.id): rows that are join partners on the parent side
+    while NULL in a column only the child side reads (the root of the hierarchy), and the converse."""
+    ids = ['1', '2', '3', '4', '5', '6']
+    n = rng.choice([3, 4, 6])
+    rows = []
+    for i in range(n):
+        mgr = None if (i == 0 or rng.random() < 0.2) else rng.choice(ids[:i])
+        rows.append([ids[i], mgr, (None if rng.random() < 0.25 else 'n' + ids[i]), (None if rng.random() < 0.25 else rng.choice(['x', 'y']))])
+    rng.shuffle(rows)
+    s0 = {'key': 'S0', 'kind': 'csv', 'cols': ['id', 'mgr', 'name', 'dept'], 'rows': rows}
+    conds = [['mgr', 'id']] + ([['dept', 'dept']] if rng.random() < 0.25 else [])
+    child_subj = rng.choice([{'k': 'templ', 'v': EX + 'c/{id}', 'ck': 'iri', 'tt': ''}, {'k': 'templ', 'v': EX + 'c/{id}/{name}', 'ck': 'iri', 'tt': ''}])
+    parent_subj = rng.choice([{'k': 'templ', 'v': EX + 'c/{id}', 'ck': 'iri', 'tt': ''}, {'k': 'templ', 'v': EX + 'p/{id}/{name}', 'ck': 'iri', 'tt': ''},
+                              {'k': 'templ', 'v': 'b{id}', 'ck': 'iri', 'tt': 'bnode'}])
+    child = {'id': EX + 'tm/Child', 'src': 'S0', 'nonasserted': False, 'subj': child_subj, 'sjoins': [], 'classes': [], 'sgraphs': [],
+             'poms': [{'preds': [mapcase.tm_const_iri(EX + 'p/reportsTo')],
+                       'objs': [{'m': {'k': 'parent', 'v': EX + 'tm/Parent', 'ck': 'iri', 'tt': ''}, 'lang': None, 'dt': None, 'joins': conds}], 'graphs': []}]}
+    if rng.random() < 0.5:
+        child['poms'].append({'preds': [mapcase.tm_const_iri(EX + 'p/name')], 'objs': [{'m': {'k': 'ref', 'v': 'name', 'ck': 'iri', 'tt': ''}, 'lang': None, 'dt': None, 'joins': []}], 'graphs': []})
+    parent = {'id': EX + 'tm/Parent', 'src': 'S0', 'nonasserted': rng.random() < 0.3, 'subj': parent_subj, 'sjoins': [], 'classes': [], 'sgraphs': [],
+              'poms': ([{'preds': [mapcase.tm_const_iri(EX + 'p/dept')], 'objs': [{'m': {'k': 'ref', 'v': 'dept', 'ck': 'iri', 'tt': ''}, 'lang': None, 'dt': None, 'joins': []}], 'graphs': []}]
+                       if rng.random() < 0.5 else [])}
+    return {'cfg': {'nquads': rng.random() < 0.3, 'mode': rng.choice(['NO', 'PARTIAL-AGGREGATIONS', 'MAXIMAL'])}, 'sources': [s0], 'doc': [child, parent]}
+
+
 def features(case):
     f = set()
     o = case['doc'][0]['poms'][0]['objs'][0]
@@ -81,9 +107,9 @@ def features(case):
 
 def run(ctx, res):
     res.rule = ('child and parent tables with duplicate keys on either side, NULL keys, keys differing only in blanks / case / leading zeros, no matches; 1-3 join conditions; '
-                'same file, other file, other file with equal content; parent subject maps using or not using the join columns; each case against the Engine model and the Spec join; '
+                'same file, other file, other file with equal content; a sixth of the cases a hierarchy over one table (mgr = id) whose root rows are NULL in child-only columns; parent subject maps using or not using the join columns; each case against the Engine model and the Spec join; '
                 'distinct = distinct case; non-trivial = at least one joined statement prescribed')
-    family.run_family(ctx, res, [gen_join_case(ctx.rng) for _ in range(ctx.scale(160, 4000))], features)
+    family.run_family(ctx, res, [(gen_hierarchy_case(ctx.rng) if i % 6 == 5 else gen_join_case(ctx.rng)) for i in range(ctx.scale(180, 4200))], features)
 
 
 replay = family.replay_family
